@@ -251,7 +251,7 @@ def h_setget3(a0: str, b0: str, a1: str, b1: str, a2: str, b2: str, two0: bool, 
 def h_setset(a0: str, two0: bool, c1: int, v1: str, c2: int, v2: str) -> bool:
     '''
     pre: _ok1(a0)
-    pre: 0 <= c1 <= 2 and _ok1(v1) and 0 <= c2 <= 2 and _ok1(v2)
+    pre: 0 <= c1 <= 5 and _ok1(v1) and 0 <= c2 <= 5 and _ok1(v2)
     post: _
     '''
     # two writes in a row (at EIDX, then at E2): catches padding that shares mutable state between positions
